@@ -268,6 +268,17 @@ class OutgoingRIB(Cache):
             )
             # Also remove from _new_nlri since we're withdrawing it
             new_nlri.pop(route_index, None)
+            # the route may still sit in the group of an attribute set it was announced with before
+            # (announce x, announce y, withdraw): left there it was announced again after the withdrawal
+            for families in attr_af_nlri.values():
+                queued = families.get(route_family)
+                if queued:
+                    queued.pop(prev_route_index, None)
+
+        # a refresh of this route which is still waiting to be sent must not go out once it is withdrawn:
+        # in the first batch of a session the withdrawals are left out, so the peer kept the route
+        if self._refresh_routes:
+            self._refresh_routes = [queued for queued in self._refresh_routes if queued.index() != route_index]
 
         # Store withdraw in separate structure - no deepcopy needed!
         # Store (NLRI, AttributeCollection) tuple, action is determined by which dict it's in
